@@ -15,7 +15,7 @@
    and -- unless the reader is told to trust the CAR -- blocks hashing to their CIDs. *)
 From GoCar Require Import Bytes Varint Cid Header Frame V2Header Scan BlockReaderPos.
 From GoCar Require Import Index.
-From GoCarProofs Require Import CidFacts ScanFacts BlockReaderPosFacts BlockReaderPosC14 BlockReaderPosMore.
+From GoCarProofs Require Import CidFacts ScanFacts BlockReaderPosFacts BlockReaderPosC14 BlockReaderPosMore BlockReaderPosTrunc BlockReaderPosWrap.
 
 (* CARv1, every option set, both source kinds, every choice string: the walk visits exactly
    the scan's blocks in order (as many as there are choices), ends with io.EOF iff the choices
@@ -171,3 +171,88 @@ Theorem C14_positions_exact_carv2_with_embedded_index :
       drop index_offset file = idx_write i ++ junk.
 Proof. exact c14_v2_indexed. Qed.
 Print Assumptions C14_positions_exact_carv2_with_embedded_index.
+
+(* ---- extension round ---------------------------------------------------------------------------- *)
+
+(* Walk-level truncation, exact.  For every valid CARv1, every prefix of it that still contains the
+   header (k bytes), every option set, source kind and choice string: the cut falls after j whole
+   sections, m bytes into the next one; the walk over the prefix returns EXACTLY the first j steps of
+   the walk over the whole archive -- same blocks, same metadata (Offset, SourceOffset, Size), same
+   source positions and high-water marks, all exact by C14_positions_exact_carv1 -- and then: nothing
+   if the choices have run out; io.EOF if the cut is on a section boundary (m = 0: the prefix IS a
+   valid archive); otherwise an error that is not io.EOF.  No short block, no step beyond the cut. *)
+Theorem C14_walk_over_a_prefix_is_the_prefix_of_the_walk :
+  forall hok hdrdec o seek roots bs w k,
+    hdrdec (enc_header (Some roots) 1) = Some (roots, 1) ->
+    blen (enc_header (Some roots) 1) <= o_maxh o -> blen (enc_header (Some roots) 1) < two63 ->
+    Forall (block_ok (o_maxs o)) bs -> Forall (fun b => cid_stream_ok (fst b)) bs ->
+    (o_trusted o = false -> Forall (hash_good hok) bs) ->
+    blen (ld (enc_header (Some roots) 1)) <= k -> k <= blen (enc_payload roots bs) ->
+    exists j m st_full full e_full fin_full st0 e fin,
+      brp_run hok hdrdec o seek (enc_payload roots bs) w = Ok (1, roots, st_full, (full, (e_full, fin_full))) /\
+      (j <= length bs)%nat /\
+      k = blen (ld (enc_header (Some roots) 1) ++ enc_sections (firstn j bs)) + m /\
+      (m = 0 \/ exists c d, nth_error bs j = Some (c, d) /\ 0 < m /\ m < blen (enc_section c d)) /\
+      brp_run hok hdrdec o seek (take k (enc_payload roots bs)) w
+      = Ok (1, roots, st0, (firstn j full, (e, fin))) /\
+      ((length w <= j)%nat -> e = None) /\
+      ((j < length w)%nat -> m = 0 -> e = Some EEof) /\
+      ((j < length w)%nat -> 0 < m -> exists e', e = Some e' /\ e' <> EEof).
+Proof. exact c14_prefix_walk_v1. Qed.
+Print Assumptions C14_walk_over_a_prefix_is_the_prefix_of_the_walk.
+
+(* br.offset is a uint64.  [brp_run64] (the function the harness runs) reduces every assignment to
+   br.offset modulo 2^64; [brp_run] keeps it unbounded.  For EVERY byte string, option set, source
+   kind and choice string they are the same function as soon as the state NewBlockReader leaves
+   satisfies the size guard (position inside the source; offset + bytes left < 2^64; a known
+   readerSize not beyond the source): wrap-around is unreachable, because br.offset only ever grows
+   by the distance the source position moves (C14_offset_tracks_source_position). *)
+Theorem C14_uint64_offset_cannot_wrap_under_the_size_guard :
+  forall hok hdrdec o seek file w,
+    (forall v roots st0, brp_open hdrdec o seek file = Ok (v, roots, st0) ->
+       p_pos st0 <= blen (p_all st0) /\
+       p_off st0 + (blen (p_all st0) - p_pos st0) < two64 /\
+       (p_lim st0 = None -> match p_rsize st0 with None => True | Some r => r <= blen (p_all st0) end)) ->
+    brp_run64 hok hdrdec o seek file w = brp_run hok hdrdec o seek file w.
+Proof. exact brp_run64_eq. Qed.
+Print Assumptions C14_uint64_offset_cannot_wrap_under_the_size_guard.
+
+(* ... and every valid archive shorter than 2^64 bytes satisfies the guard, so all theorems of this
+   file hold verbatim for the uint64 model. *)
+Theorem C14_uint64_model_agrees_on_valid_archives :
+  forall hok hdrdec o seek roots bs w,
+    hdrdec (enc_header (Some roots) 1) = Some (roots, 1) ->
+    blen (enc_header (Some roots) 1) <= o_maxh o -> blen (enc_header (Some roots) 1) < two63 ->
+    Forall (block_ok (o_maxs o)) bs -> Forall (fun b => cid_stream_ok (fst b)) bs ->
+    (o_trusted o = false -> Forall (hash_good hok) bs) ->
+    (blen (enc_payload roots bs) < two64 ->
+     brp_run64 hok hdrdec o seek (enc_payload roots bs) w = brp_run hok hdrdec o seek (enc_payload roots bs) w) /\
+    (forall hi lo ioff pad trailer,
+       hdrdec pragma_body = Some ([], 2) -> 10 <= o_maxh o ->
+       hi < two64 -> lo < two64 -> ioff < two63 ->
+       51 + blen pad < two63 -> blen (enc_payload roots bs) < two63 ->
+       blen (v2_file hi lo ioff pad (enc_payload roots bs) trailer) < two64 ->
+       brp_run64 hok hdrdec o seek (v2_file hi lo ioff pad (enc_payload roots bs) trailer) w
+       = brp_run hok hdrdec o seek (v2_file hi lo ioff pad (enc_payload roots bs) trailer) w).
+Proof. exact c14_run64_valid. Qed.
+Print Assumptions C14_uint64_model_agrees_on_valid_archives.
+
+(* CARv2: a prefix that still holds the whole data payload (cut anywhere in the index padding, the
+   index or whatever follows) walks exactly like the whole file: same steps, same end. *)
+Theorem C14_carv2_prefix_holding_the_payload_walks_like_the_whole_file :
+  forall hok hdrdec o seek roots bs w hi lo ioff pad trailer k,
+    hdrdec (enc_header (Some roots) 1) = Some (roots, 1) ->
+    blen (enc_header (Some roots) 1) <= o_maxh o -> blen (enc_header (Some roots) 1) < two63 ->
+    Forall (block_ok (o_maxs o)) bs -> Forall (fun b => cid_stream_ok (fst b)) bs ->
+    (o_trusted o = false -> Forall (hash_good hok) bs) ->
+    hdrdec pragma_body = Some ([], 2) -> 10 <= o_maxh o ->
+    hi < two64 -> lo < two64 -> ioff < two63 ->
+    51 + blen pad < two63 -> blen (enc_payload roots bs) < two63 ->
+    51 + blen pad + blen (enc_payload roots bs) <= k ->
+    exists st0 st0' steps e fin fin',
+      brp_run hok hdrdec o seek (v2_file hi lo ioff pad (enc_payload roots bs) trailer) w
+      = Ok (2, roots, st0, (steps, (e, fin))) /\
+      brp_run hok hdrdec o seek (take k (v2_file hi lo ioff pad (enc_payload roots bs) trailer)) w
+      = Ok (2, roots, st0', (steps, (e, fin'))).
+Proof. exact c14_prefix_walk_v2_after_payload. Qed.
+Print Assumptions C14_carv2_prefix_holding_the_payload_walks_like_the_whole_file.
